@@ -387,6 +387,14 @@ Definition get_elem (s : st Z) (rc : Z * Z) : res Z :=
 
 Definition b2z (b : bool) : Z := if b then 1 else 0.
 
+(* a[:, a:b:k] : the selected cells are gathered from the flat data at starts[r] + c and rewrapped with the
+   per-row counts as lengths (RaggedArray(sliced_data, lengths=new_lengths)) *)
+Definition col_slice (s : st Z) (a b k : option Z) : res (st Z) :=
+  bind (cells_of (lens s) (RSlice None None None) (CSlice a b k)) (fun cs =>
+  bind (resolve (lens s) cs) (fun cells =>
+  of_flat (map (fun c => nth (flat_of (lens s) c) (data s) 0) cells)
+          (map (fun l => length (slice_indices l a b k)) (lens s)))).
+
 Inductive obs :=
 | OCmp (c : cmpop) (k : Z)                        (* a cmp k *)
 | OCmpRA (c : cmpop) (other : list (list Z))      (* a cmp RaggedArray(other) *)
@@ -398,13 +406,18 @@ Inductive obs :=
 | OAll | OAny | OMax | OMin
 | OAllCmp (c : cmpop) (k : Z)                     (* (a cmp k).all() *)
 | OAnyCmp (c : cmpop) (k : Z)
-| OElem (r c : Z).                                (* a[r, c] *)
+| OElem (r c : Z)                                 (* a[r, c] *)
+| OStarts                                         (* a.starts: recomputed from lengths on every access *)
+| ORow (r : Z)                                    (* a[r]: through the row view *)
+| OColSl (a b k : option Z).                      (* a[:, a:b:k]: through the flat data, lengths and starts *)
 
 Inductive oval :=
 | VStep (e : option err) (d : list Z) (rs : list (list Z)) (ls : list nat)   (* after a write: outcome + the three slots *)
 | VRA (d : list Z) (rs : list (list Z)) (ls : list nat)                      (* a new RaggedArray *)
 | VBool (b : bool)
 | VZ (z : option Z)
+| VNats (l : list nat)
+| VZs (l : list Z)
 | VErr (e : err).
 
 Definition vra (s : st Z) : oval := VRA (data s) (rows s) (lens s).
@@ -428,6 +441,9 @@ Definition observe (s : st Z) (q : obs) : oval :=
   | OAllCmp c k => VBool (forallb (fun b => b) (data (map_op (fun x => cmp c x k) s)))
   | OAnyCmp c k => VBool (existsb (fun b => b) (data (map_op (fun x => cmp c x k) s)))
   | OElem r c => match get_elem s (r, c) with Ok z => VZ (Some z) | Err e => VErr e end
+  | OStarts => VNats (starts (lens s))
+  | ORow r => match wrap (length (rows s)) r with Some i => VZs (nth i (rows s) []) | None => VErr EIndex end
+  | OColSl a b k => vres (col_slice s a b k)
   end.
 
 (* ------------------------------------------------------------------ traces for the correspondence *)
@@ -475,6 +491,8 @@ Definition oval_eqb (a b : oval) : bool :=
   | VRA d rs ls, VRA d' rs' ls' => slots_eqb d rs ls d' rs' ls'
   | VBool x, VBool y => Bool.eqb x y
   | VZ x, VZ y => oz_eqb x y
+  | VNats x, VNats y => leqb Nat.eqb x y
+  | VZs x, VZs y => leqb Z.eqb x y
   | VErr x, VErr y => err_eqb x y
   | _, _ => false
   end.
